@@ -116,6 +116,15 @@ def populate_child(cache, target, pause_pipe=None, resume_pipe=None):
         return pid
     try:
         from hed.schema import hed_cache
+        if isinstance(target, tuple):
+            # ("fsize", L): the operating system ends the process inside whichever write first takes a file beyond L
+            # bytes (SIGXFSZ) - a crash inside a copy that does not depend on which copy primitive the code uses
+            import resource
+            import signal
+            signal.signal(signal.SIGXFSZ, signal.SIG_DFL)      # Python ignores it by default; we want the kill
+            resource.setrlimit(resource.RLIMIT_FSIZE, (target[1], target[1]))
+            rc = hed_cache.cache_local_versions(cache)
+            os._exit(0 if rc is None else 5)
         counter = {"n": 0}
 
         def hit(partial=None):
@@ -196,7 +205,13 @@ def oracle_crash(target):
             out.bad("torn-file-under-final-name", f"crash point {target}: {torn}")
         files = installed_files()
         per_file = 7
-        idx = min(target // per_file, len(files) - 1)
+        if isinstance(target, tuple):
+            big = [f for f in os.listdir(hedenv.SCHEMA_DATA) if f in files
+                   and os.path.getsize(os.path.join(hedenv.SCHEMA_DATA, f)) > target[1]]
+            idx = files.index(big[0]) if big else 0
+            out.classes += ("killed-by-file-size-limit",)
+        else:
+            idx = min(target // per_file, len(files) - 1)
         check = {version_of(files[idx]), version_of(files[(idx + 1) % len(files)]), version_of(files[(idx + 5) % len(files)])}
         for v in sorted(check):
             res = load_and_compare(cache, v)
@@ -222,6 +237,12 @@ def crash_enum(tier):
         targets = [t for t in range(total) if (t // per_file) in (0, 3, nfiles - 1) or t >= per_file * nfiles]
     else:
         targets = list(range(total))
+
+    sizes = sorted({os.path.getsize(os.path.join(hedenv.SCHEMA_DATA, f)) for f in installed_files()})
+    limits = sorted({sz // 2 for sz in sizes} | {sz - 1 for sz in sizes} | {4096})
+    if tier == "quick":
+        limits = [limits[0], limits[len(limits) // 3], limits[2 * len(limits) // 3], limits[-1]]
+    targets = targets + [("fsize", lim) for lim in limits]
 
     def enum(shard, nshards):
         return iter(targets[shard::nshards])
